@@ -78,6 +78,7 @@ var profC08w = profile{
 	accts: [2]int{2, 3}, browsers: [2]int{1, 3}, middlewares: []string{"", "remember", "remember", "expire"},
 	faultPct: 12, faultKinds: []string{"generic", "generic", "notfound"},
 	jsonMangle: 4,
+	badQuery:   4, badQueryForm: true,
 }
 
 func TestC08World(t *testing.T) {
